@@ -663,7 +663,7 @@ func paramWindow(h *history, res *pairResult, cr *clientRun, mux int) (lo, hi in
 				if len(tr.Samples) == 0 {
 					continue
 				}
-				id := sampleID(h.Tracks[mux].Kind, tr.Samples[0].Payload)
+				id := sampleID(idKindOf(h, h.Tracks[mux].Kind), tr.Samples[0].Payload)
 				ws := res.Written[mux]
 				i := sort.Search(len(ws), func(i int) bool { return ws[i].ID >= id })
 				if i < len(ws) && ws[i].ID == id {
